@@ -185,3 +185,116 @@ func CPUs() int {
 	}
 	return 8
 }
+
+// ---- cooperative channels ----
+//
+// The rewriter turns `chan T` into *simrt.Chan[T], make(chan T, n) into
+// simrt.MakeChan[T](n), `c <- v` into c.Send(v), `<-c` into c.Recv() /
+// c.Recv2(), close(c) into c.Close() and `for v := range c` into a Recv2 loop.
+// Blocking parks the task through Block, so which of several ready goroutines
+// gets a value, and in which order results arrive, is the plan's decision.
+// select is not supported (the census reports it and the goroutines stay real).
+
+type Chan[T any] struct {
+	buf    []T
+	cap    int
+	closed bool
+	// unbuffered rendezvous: the n-th value handed over is acknowledged by recvSeq > n
+	val     T
+	full    bool
+	sendSeq uint64
+	recvSeq uint64
+}
+
+func MakeChan[T any](n int) *Chan[T] {
+	if n < 0 {
+		panic("makechan: size out of range")
+	}
+	return &Chan[T]{cap: n}
+}
+
+func never() bool { return false }
+
+func (c *Chan[T]) Send(v T) {
+	if c == nil {
+		Block(never)
+	}
+	if c.closed {
+		panic("send on closed channel")
+	}
+	if c.cap > 0 {
+		Block(func() bool { return len(c.buf) < c.cap || c.closed })
+		if c.closed {
+			panic("send on closed channel")
+		}
+		c.buf = append(c.buf, v)
+		return
+	}
+	Block(func() bool { return !c.full || c.closed })
+	if c.closed {
+		panic("send on closed channel")
+	}
+	my := c.sendSeq
+	c.sendSeq++
+	c.val, c.full = v, true
+	Block(func() bool { return c.recvSeq > my || c.closed })
+	if c.recvSeq <= my {
+		panic("send on closed channel")
+	}
+}
+
+func (c *Chan[T]) Recv2() (v T, ok bool) {
+	if c == nil {
+		Block(never)
+	}
+	if c.cap > 0 {
+		Block(func() bool { return len(c.buf) > 0 || c.closed })
+		if len(c.buf) > 0 {
+			v = c.buf[0]
+			c.buf = c.buf[1:]
+			return v, true
+		}
+		return v, false
+	}
+	Block(func() bool { return c.full || c.closed })
+	if c.full {
+		v = c.val
+		var zero T
+		c.val, c.full = zero, false
+		c.recvSeq++
+		return v, true
+	}
+	return v, false
+}
+
+func (c *Chan[T]) Recv() T {
+	v, _ := c.Recv2()
+	return v
+}
+
+func (c *Chan[T]) Close() {
+	if c == nil {
+		panic("close of nil channel")
+	}
+	if c.closed {
+		panic("close of closed channel")
+	}
+	c.closed = true
+}
+
+func (c *Chan[T]) Len() int {
+	if c == nil {
+		return 0
+	}
+	if c.cap == 0 {
+		return 0
+	}
+	return len(c.buf)
+}
+
+func (c *Chan[T]) Cap() int {
+	if c == nil {
+		return 0
+	}
+	return c.cap
+}
